@@ -305,6 +305,25 @@ def check(ctx):
             run.add('C19.pure-render', cg_mod, 'Comment.__str__', c, fresh,
                     'indent() is applied to a fresh deep copy' if fresh else
                     f'indent() is applied to `{ast.unparse(c.func.value)[:50]}`, which is not a fresh copy', node=c)
+        # A Comment that is extended stays the same Comment: the in-place operations it inherits from TextBlock hand back the
+        # object itself - `c += text` re-binds c to what __iadd__ returns, and a plain TextBlock built from the raw lines
+        # renders the user text without the `//` prefix.
+        tb_cls = prog.cls('text_gen', 'TextBlock')
+        for mname in ('__iadd__', 'append'):
+            m_ = prog.lookup_method(comment, mname)
+            if m_ is None or m_.cls is comment:
+                continue
+            rets = [r for r in iter_own_nodes(m_.node) if isinstance(r, ast.Return)]
+            ok_ = bool(rets) and all(isinstance(r.value, ast.Name) and r.value.id == 'self' for r in rets)
+            if not ok_ and rets and all(isinstance(r.value, ast.Call) and isinstance(r.value.func, ast.Attribute) and
+                                        isinstance(r.value.func.value, ast.Name) and r.value.func.value.id == 'self' and
+                                        r.value.func.attr in ('append', '__iadd__') for r in rets):
+                ok_ = True      # return self.append(x): the in-place method's own result
+            run.add('C19.pure-render', m_.module.name, m_.qualname, f'{m_.qualname} returns self', ok_,
+                    f'{mname} extends the block in place and hands back the object itself (a Comment stays a Comment)' if ok_ else
+                    f'{m_.qualname} does not return `self`: `comment {"+=" if mname == "__iadd__" else ".append"} text` yields another '
+                    f'object - a plain {tb_cls.name} holding the raw lines, which renders the user text without the comment prefix',
+                    node=rets[0] if rets else None)
         # other methods of Comment must not mutate on render either
         for name, m in comment.methods.items():
             if name in ('__init__', '__str__'):
